@@ -449,7 +449,10 @@ namespace bloch::compiler {
         }
 
         if (expected.className.empty()) {
-            if (expected.value == ValueType::Unknown || actual.value == ValueType::Unknown)
+            // Class and array types carry the Unknown primitive tag plus a class name: only a type
+            // that is unknown altogether is given the benefit of the doubt.
+            if (expected.value == ValueType::Unknown ||
+                (actual.value == ValueType::Unknown && actual.className.empty()))
                 return true;
             if (actual.className.empty())
                 return matchesPrimitive(expected.value, actual.value);
@@ -501,7 +504,8 @@ namespace bloch::compiler {
         }
 
         if (expected.className.empty()) {
-            if (expected.value == ValueType::Unknown || actual.value == ValueType::Unknown)
+            if (expected.value == ValueType::Unknown ||
+                (actual.value == ValueType::Unknown && actual.className.empty()))
                 return 0;
             if (actual.className.empty()) {
                 if (expected.value == actual.value)
